@@ -384,43 +384,51 @@ Qed.
 (* function, expression, kind, guard, coverage).  Coq does NOT check that   *)
 (* the list is complete.  It checks the coverage column, and only for the   *)
 (* two constructors that take the function containing the site as a        *)
-(* FUNCTIONAL of the panicking operation (model/UntrustedPanicSites.v,      *)
-(* proofs/UntrustedSiteFunctionals.v; fourth audit C1 - the earlier shapes  *)
-(* could be inhabited by an unrelated function or a guard nobody            *)
-(* establishes, see the Fail tests at the end of the table file):           *)
-(*   CModel op w F reach f same pf   op can panic (w); F = the body of the   *)
-(*                          model function f over the operation (same);     *)
-(*                          with an always-panicking operation F panics on  *)
-(*                          some input (reach: the operation IS called);    *)
-(*                          f never panics (pf)                             *)
-(*   CLemma raw w F reach pf   the same for the statements as written in    *)
-(*                          the Go function (its test included) over the    *)
-(*                          raw machine-integer operation                   *)
+(* functional of a GUARD SWITCH and of the panicking operation              *)
+(* (model/UntrustedPanicSites.v, proofs/UntrustedSiteFunctionals.v; fifth   *)
+(* audit C1-1: the earlier shapes were still inhabited by a function that   *)
+(* applies the operation to a harmless constant - refuted at the end of the *)
+(* table file):                                                             *)
+(*   CModel op F necessary f same pf   F true op = the body of the model     *)
+(*                          function f (same); with the test(s) in front of *)
+(*                          the expression deleted (F false) the REAL       *)
+(*                          operation panics on some input (necessary: the  *)
+(*                          guard is needed, the input reaches the          *)
+(*                          operation); f never panics (pf)                 *)
+(*   CLemma raw F necessary pf   the same for the statements as written in  *)
+(*                          the Go function over the raw machine-integer    *)
+(*                          operation                                       *)
+(* Not in the type, but reading: that F true transcribes the Go function    *)
+(* and that the switched test is the one the Go code has.                   *)
 (* Entries tagged CArgued / CStdlib / CHarnessOnly carry no theorem.        *)
 (* ======================================================================== *)
 
-(* The table type-checks, i.e. each of its 7 CModel and 10 CLemma entries
-   holds an operation with a panicking input, a function that really calls it
-   (it panics on some input when the operation is replaced by an always-
-   panicking one) and a proof that the function over the real operation never
-   panics - so whatever test stands in front of the operation inside that
-   function suffices.  The other 64 entries carry no theorem: 57 argued in prose
-   (constant bounds, static types, values tink-go built itself, nil-safe
-   getters = total getters of the model, parsers whose only checked operation
-   sits inside fixed_size - which has its own entry -, guards established by
-   another function, the nested-parser detours - whose theorem is
-   C14_nested_parsers_never_panic_and_agree -, the parameters parsers - 28 of
-   29 have no Panic constructor -, integer conversions, and make([]byte,
+(* What the theorem counts: constructors.  Each of the 6 CModel and 9 CLemma
+   entries holds a function with a switchable test such that the listed
+   operation panics on some input when the test is deleted and on none when it
+   is in place (for CModel the guarded function is a function of the model, by
+   an equation).  A function applying the operation to a constant, or one
+   unrelated to it, is not such an entry (it fails `necessary`), so the first
+   two counts cannot be raised that way; they can still be raised by a made-up
+   "test / operation" pair with these two properties - that the 15 functions
+   are the Go functions named in their entries is reading, not type.  The other
+   66 entries carry no theorem: 59 argued in prose (constant bounds, static
+   types, values tink-go built itself, nil-safe getters = total getters of the
+   model, sites where the arithmetic cannot leave the range whatever test is
+   deleted - the index loop of BigIntBytesToFixedSizeBuffer, encodePoint's
+   make -, parsers whose only checked operation sits inside
+   BigIntBytesToFixedSizeBuffer - which has its own entries -, guards
+   established by another function, the nested-parser detours - whose theorem
+   is C14_nested_parsers_never_panic_and_agree -, the parameters parsers - 28
+   of 29 have no Panic constructor -, integer conversions, and make([]byte,
    KeySizeInBytes()) of the key derivers under a 64-bit platform assumption),
    6 inside the standard library, 1 decided by the harness alone
-   (Handle.KeysetInfo's panic(err)).  With the functional shapes a count can no
-   longer be raised by an entry about an unrelated function; the counts are
-   still counts of constructors, not a measure of completeness. *)
+   (Handle.KeysetInfo's panic(err)).  Not a measure of completeness. *)
 Theorem C14_panic_site_table_coverage :
   (length panic_sites = 81)%nat /\
-  (UntrustedPanicSites.count by_model_theorem panic_sites = 7)%nat /\
-  (UntrustedPanicSites.count by_site_lemma panic_sites = 10)%nat /\
-  (UntrustedPanicSites.count argued_only panic_sites = 57)%nat /\
+  (UntrustedPanicSites.count by_model_theorem panic_sites = 6)%nat /\
+  (UntrustedPanicSites.count by_site_lemma panic_sites = 9)%nat /\
+  (UntrustedPanicSites.count argued_only panic_sites = 59)%nat /\
   (UntrustedPanicSites.count is_stdlib panic_sites = 6)%nat /\
   (UntrustedPanicSites.count is_harness_only panic_sites = 1)%nat.
 Proof. exact panic_site_coverage_counts. Qed.
@@ -769,7 +777,11 @@ Qed.
 (* keyset.NewJSONReader(r).Read() / ReadEncrypted() - protojson.Unmarshal    *)
 (* into tinkpb.Keyset / tinkpb.EncryptedKeyset with default options, nothing  *)
 (* before and nothing after (keyset/json_io.go) - accept and produce: the     *)
-(* tokenizer and value parser of model/Json.v (C09) with a number oracle that *)
+(* tokenizer and value parser of model/Json.v (C09) in the variant            *)
+(* json_parse_text_pj (number tokens as protojson's parseNumber cuts them on  *)
+(* the INTEGER path: a bare exponent marker before a delimiter is part of the *)
+(* token and ignored - {"primaryKeyId":1e} reads 1; protobuf-go leniency, not *)
+(* JSON and not a Tink rule) with a number oracle that                         *)
 (* keeps the literal, then the two schemas (names in lowerCamelCase or        *)
 (* snake_case, unknown and duplicate fields refused, null = unset, uint32 as  *)
 (* number or string, enums by name or int32 number, bytes in either base64    *)
@@ -781,9 +793,15 @@ Qed.
 (* (imports here, after the statements above: Json / JsonKeyset reuse names   *)
 (* such as memN and utf8_valid)                                               *)
 (* ======================================================================== *)
-From Tink Require Import Base64url Jwt Json JsonLexProofs JsonProofs JsonKeyset JsonKeysetProofs JsonKeysetC14 JsonKeysetC14Proofs.
+From Tink Require Import Base64url Jwt Json JsonLexProofs JsonProofs JsonPjProofs JsonKeyset JsonKeysetProofs JsonKeysetC14 JsonKeysetC14Proofs.
 
-(* For ALL byte strings the JSON readers never panic ... *)
+(* For ALL byte strings the JSON readers never panic ...  For the TEXT layer this
+   holds by construction: keyset_of_json_text / encrypted_of_json_text are
+   option-valued total functions, there is no Panic outcome to exclude (protojson
+   itself is outside the panic-site model).  The content of the theorem is the
+   composition: the proto keyset the text stands for then goes through the
+   x-readers (xread / xread_no_secrets / the decrypting reader), whose panic
+   sites are the ones C14_*_never_panics theorems above are about. *)
 Theorem C14_json_readers_never_panic :
   forall L : stdlib,
     (forall s, xread_json L s <> Panic)
@@ -813,7 +831,11 @@ Proof.
 Qed.
 Print Assumptions C14_json_accepted_handle_wellformed.
 
-(* a text protojson refuses, and a text whose message is not a well-formed keyset: an error on every path *)
+(* a text the JSON reader refuses (keyset_of_json_text s = None: the model of
+   protojson.Unmarshal on this schema, INCLUDING its leniency on the integer
+   path - a text with a dangling exponent marker on a uint32 / enum field is NOT
+   in this set, it is read: C14_json_dangling_exponent_marker_is_read), and a
+   text whose message is not a well-formed keyset: an error on every path *)
 Theorem C14_json_refused_or_malformed_text_is_an_error :
   forall L : stdlib,
     (forall s, keyset_of_json_text s = None -> xread_json L s = Err /\ xread_json_no_secrets L s = Err)
@@ -834,7 +856,7 @@ Theorem C14_json_text_layer_refusals :
     (Jwt.utf8_valid s = false -> keyset_of_json_text s = None /\ encrypted_of_json_text s = None)
     /\ (all_ws s = true -> keyset_of_json_text s = None /\ encrypted_of_json_text s = None)
     /\ (forall c t, skip_ws s = c :: t -> c <> 123 -> keyset_of_json_text s = None /\ encrypted_of_json_text s = None)
-    /\ (forall v, lex num_keep s = Some (toks v) -> nodup_names v = false ->
+    /\ (forall v, lex_pj num_keep s = Some (toks v) -> nodup_names v = false ->
           keyset_of_json_text s = None /\ encrypted_of_json_text s = None).
 Proof. exact keyset_text_json_refusals. Qed.
 Print Assumptions C14_json_text_layer_refusals.
@@ -851,9 +873,38 @@ Print Assumptions C14_json_trailing_data_refused.
 
 Theorem C14_json_whitespace_around_the_text :
   forall w s, all_ws w = true ->
-    keyset_of_json_text (w ++ s) = keyset_of_json_text s /\ keyset_of_json_text (s ++ w) = keyset_of_json_text s.
-Proof. exact keyset_text_whitespace. Qed.
+    (keyset_of_json_text (w ++ s) = keyset_of_json_text s /\ keyset_of_json_text (s ++ w) = keyset_of_json_text s)
+    /\ (encrypted_of_json_text (w ++ s) = encrypted_of_json_text s /\ encrypted_of_json_text (s ++ w) = encrypted_of_json_text s).
+Proof. intros w s H. split; [exact (keyset_text_whitespace w s H)|exact (encrypted_text_whitespace w s H)]. Qed.
 Print Assumptions C14_json_whitespace_around_the_text.
+
+(* the reader against the JSON parser of property C09 (json_parse_text, which
+   refuses a dangling exponent marker, as structpb does): whatever that parser
+   accepts is read through the same value tree; the reader accepts MORE only
+   where the C09 tokenizer fails on the text; and one token of the reader's
+   tokenizer is a token of the C09 tokenizer or the dangling form
+   <int>[.<frac>] e <delimiter>, read as the literal without the marker *)
+Theorem C14_json_reader_against_the_c09_parser :
+  (forall s,
+     (forall f, json_parse_text num_keep s = Some f ->
+        keyset_of_json_text s = keyset_of_fields f /\ encrypted_of_json_text s = encrypted_of_fields f)
+     /\ (json_parse_text num_keep s = None ->
+         keyset_of_json_text s <> None \/ encrypted_of_json_text s <> None -> lex num_keep s = None))
+  /\ (forall num c t tok r,
+        lex_one_pj num c t = Some (tok, r) <->
+        lex_one num c t = Some (tok, r)
+        \/ (lex_one num c t = None /\ exists l z x, lex_dangling (c :: t) = Some (l, r)
+              /\ num_value num l = Some (z, x) /\ tok = TNum z x))
+  /\ (forall s l r, lex_dangling s = Some (l, r) ->
+        exists pre, s = pre ++ r /\ pre <> [] /\ plain pre = true
+          /\ ((hd 0 pre =? 45) || is_digit (hd 0 pre)) = true
+          /\ is_ws (last pre 0) = false /\ follows_dangling r = true /\ nl_exp l = None
+          /\ (forall y, follows_dangling y = true -> lex_dangling (pre ++ y) = Some (l, y))
+          /\ (forall y, follows_dangling y = true -> lex_number (pre ++ y) = None)).
+Proof.
+  split; [exact keyset_text_vs_c09_parser|]. split; [exact lex_one_pj_cases|exact lex_dangling_local].
+Qed.
+Print Assumptions C14_json_reader_against_the_c09_parser.
 
 (* an object is read against a field table EXACTLY when every member names a
    field (JSON name or proto name) and no field is named twice - a null member
@@ -866,7 +917,8 @@ Proof. exact resolve_spec. Qed.
 Print Assumptions C14_json_object_members_exactly.
 
 (* an unknown member, or two members for one field (same spelling, or keyId and
-   key_id), in the keyset object, in a key object, in a key data object *)
+   key_id), in each of the SIX objects of the two schemas: keyset, key, key data;
+   encrypted keyset, keyset info, key info *)
 Theorem C14_json_unknown_or_duplicate_field_refused :
   (forall f,
      (forall k v, In (k, v) f -> field_number tab_keyset k = None -> keyset_of_fields f = None)
@@ -879,9 +931,23 @@ Theorem C14_json_unknown_or_duplicate_field_refused :
   /\ (forall f,
      (forall k v, In (k, v) f -> field_number tab_keydata k = None -> keydata_of_fields f = None)
      /\ (forall f1 k1 v1 f2 k2 v2 f3 n, f = f1 ++ (k1, v1) :: f2 ++ (k2, v2) :: f3 ->
-           field_number tab_keydata k1 = Some n -> field_number tab_keydata k2 = Some n -> keydata_of_fields f = None)).
+           field_number tab_keydata k1 = Some n -> field_number tab_keydata k2 = Some n -> keydata_of_fields f = None))
+  /\ (forall f,
+     (forall k v, In (k, v) f -> field_number tab_encrypted k = None -> encrypted_of_fields f = None)
+     /\ (forall f1 k1 v1 f2 k2 v2 f3 n, f = f1 ++ (k1, v1) :: f2 ++ (k2, v2) :: f3 ->
+           field_number tab_encrypted k1 = Some n -> field_number tab_encrypted k2 = Some n -> encrypted_of_fields f = None))
+  /\ (forall f,
+     (forall k v, In (k, v) f -> field_number tab_info k = None -> info_of_fields f = None)
+     /\ (forall f1 k1 v1 f2 k2 v2 f3 n, f = f1 ++ (k1, v1) :: f2 ++ (k2, v2) :: f3 ->
+           field_number tab_info k1 = Some n -> field_number tab_info k2 = Some n -> info_of_fields f = None))
+  /\ (forall f,
+     (forall k v, In (k, v) f -> field_number tab_keyinfo k = None -> keyinfo_of_fields f = None)
+     /\ (forall f1 k1 v1 f2 k2 v2 f3 n, f = f1 ++ (k1, v1) :: f2 ++ (k2, v2) :: f3 ->
+           field_number tab_keyinfo k1 = Some n -> field_number tab_keyinfo k2 = Some n -> keyinfo_of_fields f = None)).
 Proof.
-  split; [exact keyset_unknown_or_duplicate_field|]. split; [exact key_unknown_or_duplicate_field|exact keydata_unknown_or_duplicate_field].
+  split; [exact keyset_unknown_or_duplicate_field|]. split; [exact key_unknown_or_duplicate_field|].
+  split; [exact keydata_unknown_or_duplicate_field|]. split; [exact encrypted_unknown_or_duplicate_field|].
+  split; [exact info_unknown_or_duplicate_field|exact keyinfo_unknown_or_duplicate_field].
 Qed.
 Print Assumptions C14_json_unknown_or_duplicate_field_refused.
 
@@ -919,12 +985,20 @@ Proof.
 Qed.
 Print Assumptions C14_json_bad_scalar_refused.
 
-(* the printer's text of every message with uint32-sized numbers, UTF-8 type
-   URLs and byte-string values is read back as that message *)
+(* the text of every message with uint32-sized numbers, UTF-8 type URLs and
+   byte-string values is read back as that message, from BOTH printers of the
+   model: its own canonical form (enum numbers, URL unpadded base64) and the
+   form protojson.Marshal gives with the options of keyset.NewJSONWriter (enum
+   NAMES, standard padded base64, every field present, unset key data null) *)
 Theorem C14_json_print_then_read :
   (forall ks, keyset_ok ks = true -> keyset_of_json_text (json_text_of_keyset ks) = Some ks)
-  /\ (forall e, encrypted_ok e = true -> encrypted_of_json_text (json_text_of_encrypted e) = Some e).
-Proof. split; [exact keyset_text_roundtrip|exact encrypted_text_roundtrip]. Qed.
+  /\ (forall e, encrypted_ok e = true -> encrypted_of_json_text (json_text_of_encrypted e) = Some e)
+  /\ (forall ks, keyset_ok ks = true -> keyset_of_json_text (json_text_pj_of_keyset ks) = Some ks)
+  /\ (forall e, encrypted_ok e = true -> encrypted_of_json_text (json_text_pj_of_encrypted e) = Some e).
+Proof.
+  split; [exact keyset_text_roundtrip|]. split; [exact encrypted_text_roundtrip|].
+  split; [exact keyset_pj_text_roundtrip|exact encrypted_pj_text_roundtrip].
+Qed.
 Print Assumptions C14_json_print_then_read.
 
 (* Non-vacuity, concrete texts: the keyset of C14_nonvacuous (AES-GCM, TINK, id 5)
@@ -987,6 +1061,35 @@ Section JsonKeysetExample.
     split; [exact R|]. split; [vm_compute; reflexivity|]. split; [vm_compute; discriminate|].
     split; [vm_compute; reflexivity|].
     split; [apply (xread_json_wf std0) in R; destruct R as [jks [_ [_ [W _]]]]; exact W|].
+    repeat split; vm_compute; reflexivity.
+  Qed.
+
+  (* THE DANGLING EXPONENT MARKER (protobuf-go leniency, not JSON, not a Tink
+     rule): the camelCase text above with  "primaryKeyId":5e , a status 1E and a
+     key id 5.0e  is read into the SAME handle, by the model as by Tink; the JSON
+     parser of property C09 refuses the text (structpb would); the string form
+     needs a byte after the marker; a sign after the marker is refused *)
+  Let camel_e : bytes :=
+    bs "{""primaryKeyId"":5e,""key"":[{""keyData"":{""typeUrl"":""type.googleapis.com/google.crypto.tink.AesGcmKey"",""value"":"""
+    ++ v64 ++ bs """,""keyMaterialType"":1e},""status"":1E ,""keyId"":5.0e,""outputPrefixType"":""TINK""}]}".
+  Example C14_json_dangling_exponent_marker_is_read :
+    keyset_of_json_text camel_e = Some the_keyset
+    /\ xread_json std0 camel_e = Ok h0 /\ h0 <> []
+    /\ json_parse_text num_keep camel_e = None /\ lex num_keep camel_e = None
+    /\ option_map jks_primary (keyset_of_json_text (bs "{""primaryKeyId"":""5e,""}")) = Some 5
+    /\ option_map jks_primary (keyset_of_json_text (bs "{""primaryKeyId"":""5e x""}")) = Some 5
+    /\ option_map jks_primary (keyset_of_json_text (bs "{""primaryKeyId"":""1e 5""}")) = Some 1
+    /\ keyset_of_json_text (bs "{""primaryKeyId"":""5e""}") = None
+    /\ keyset_of_json_text (bs "{""primaryKeyId"":5e+}") = None
+    /\ keyset_of_json_text (bs "{""primaryKeyId"":5e-}") = None
+    /\ keyset_of_json_text (bs "{""primaryKeyId"":5ee}") = None
+    /\ keyset_of_json_text (bs "{""primaryKeyId"":1.5e}") = None
+    /\ keyset_of_json_text (bs "{""primaryKeyId"":5e") = None
+    /\ keyset_of_json_text (field (bs """status""") (bs """1e,""")) = None     (* an enum string is a NAME *)
+    /\ option_map jn_primary (match encrypted_of_json_text (bs "{""keysetInfo"":{""primaryKeyId"":7e}}") with
+                              | Some e => je_info e | None => None end) = Some 7.
+  Proof.
+    split; [vm_compute; reflexivity|]. split; [vm_compute; reflexivity|]. split; [vm_compute; discriminate|].
     repeat split; vm_compute; reflexivity.
   Qed.
 End JsonKeysetExample.
